@@ -6,7 +6,10 @@ package engines
 import (
 	"context"
 	"fmt"
+	apierrors "k8s.io/apimachinery/pkg/api/errors"
+	metav1 "k8s.io/apimachinery/pkg/apis/meta/v1"
 	"strconv"
+	"sync/atomic"
 	"time"
 
 	"github.com/boz/kcache"
@@ -23,7 +26,7 @@ type e5desc struct {
 	Race   bool   `json:"race_mode"`
 }
 
-var e5Kinds = []string{"close", "err1", "err2", "err3", "status", "bookmark", "unknown", "nilobj", "burst1-close", "burst10-close", "burst60-close", "close-twice", "slow-connect", "dup", "status-close", "flap", "burst10-bookmark-close", "burst60-bookmark-close", "err-timeout", "err-canceled"}
+var e5Kinds = []string{"close", "err1", "err2", "err3", "status", "bookmark", "unknown", "nilobj", "burst1-close", "burst10-close", "burst60-close", "close-twice", "slow-connect", "dup", "status-close", "flap", "burst10-bookmark-close", "burst60-bookmark-close", "err-timeout", "err-canceled", "err-401", "err-410", "err-429", "err-503"}
 var e5Speeds = []string{"", "controller|update event", "watcher|session event", "watcher|session done", "watch-session|"}
 
 func e5Case(hseed uint64, pos int, kind, speed string, race bool) Case {
@@ -69,6 +72,17 @@ func e5Case(hseed uint64, pos int, kind, speed string, race bool) Case {
 			} else {
 				errValue = fmt.Errorf("client rate limiter Wait returned an error: %w", context.Canceled)
 			}
+		case "err-401", "err-410", "err-429", "err-503":
+			// the reconnect is refused once with an API status error (with and without
+			// details / a retry-after hint)
+			f1.CloseAfter = pos
+			errs = 1
+			errValue = map[string]error{
+				"err-401": apierrors.NewUnauthorized("token expired"),
+				"err-410": apierrors.NewResourceExpired("too old resource version"),
+				"err-429": apierrors.NewTooManyRequests("slow down", 1),
+				"err-503": apierrors.NewServiceUnavailable("apiserver restarting"),
+			}[kind]
 		case "status":
 			f1.Frames = map[int][]watchEvent{pos: {kit.StatusFrame()}}
 		case "status-close":
@@ -339,6 +353,78 @@ func e5RelistRetryCase(seed uint64, n int) Case {
 	}}
 }
 
+// e5BacklogCase: the stream ends while the controller is far behind (a slow
+// filter: the watcher's hand-off buffer holds 50-100 events for more than the
+// reconnect delay).  Once the backlog has been worked off the cache equals the
+// server, and what the server emits afterwards still arrives within the
+// reconnect delay.
+func e5BacklogCase(seed uint64, n int) Case {
+	id := fmt.Sprintf("E5/stream-ends-under-backlog/%d/%d", seed, n)
+	burst := []int{60, 75, 90, 99}[n%4] // below the watcher's buffer: nothing may overflow
+	return Case{ID: id, Desc: map[string]interface{}{"seed": seed, "n": n, "burst": burst, "what": "stream close while 50-100 events wait in the watcher's buffer for > reconnect delay"}, Bubble: true, Run: func(r *Res) {
+		rng := kit.NewRng(kit.Mix(seed, uint64(n)+5600))
+		core := kit.NewCore(&kit.Plan{Seed: rng.U64(), PYield: 100, PSleep: 10, MaxSleep: 40 * time.Microsecond})
+		srv := kit.NewPodServer(core)
+		srv.Put(kit.Pod("n0", "a", "", map[string]string{"l": "x"}))
+		per := time.Duration(50+rng.Intn(30)) * time.Millisecond // 13-20 events consumed per second
+		var slow atomic.Bool
+		F := kit.TFN("slow-accept-all", func(metav1.Object) bool {
+			if slow.Load() {
+				core.Sleep(per)
+			}
+			return true
+		})
+		srv.WatchPlan = func(i int) kit.WatchFault {
+			f := kit.NoWatchFault()
+			if i == 1 {
+				f.CloseAfter = burst + 1
+			}
+			return f
+		}
+		g, err := newCtlRig(core, srv, 10000*time.Hour, F)
+		if err != nil {
+			r.Inc(err.Error())
+			return
+		}
+		defer g.shutdown(r, "C12")
+		if !waitCh(g.ctl.Ready(), virtBound) {
+			r.V("C04", "never-ready", "controller not ready")
+			return
+		}
+		g.barrier()
+		slow.Store(true)
+		for i := 0; i < burst; i++ {
+			srv.Put(kit.Pod("n0", fmt.Sprintf("b%d", i%7), "", map[string]string{"l": "x"}))
+		}
+		// the watcher has taken the whole burst over; one more event ends the stream while
+		// the controller is still far behind; it needs burst*per to work the backlog off
+		time.Sleep(30 * time.Millisecond)
+		srv.Put(kit.Pod("n0", "b0", "", map[string]string{"l": "x"}))
+		time.Sleep(time.Duration(burst)*per + 3*time.Second)
+		slow.Store(false)
+		g.barrier()
+		srv.Put(kit.Pod("n0", "late", "", map[string]string{"l": "y"}))
+		srv.Delete("n0", "a")
+		quiet := time.Now()
+		time.Sleep(kcache.VerifWatchRetryDelay + 500*time.Millisecond)
+		g.barrier()
+		r.Add("continuity-checks", 1)
+		want := kit.SnapOf(srv.Objects())
+		got, _ := cacheSnap(g.ctl.Cache())
+		if len(srv.Lists()) > 1 || core.Overruns() > 0 {
+			r.Add("backlog-case-not-judged", 1) // an overflow loses events legitimately (healed by the next relist, C03)
+			return
+		}
+		if !got.Equal(want) {
+			r.V("C04", "not-converged-after-reconnect", "the stream ended while %d events were waiting for a slow controller; long after the backlog was gone the server emitted two more events and went quiet: %v later the cache is %v, the server %v (overruns logged: %d); watch calls: %s", burst, time.Since(quiet), got, want, core.Overruns(), watchSummary(srv.Watches()))
+			return
+		}
+		r.Set("fault-kinds", "stream-ends-under-backlog")
+		r.Key(id)
+		r.Sample = map[string]interface{}{"burst": burst, "watch_calls": watchSummary(srv.Watches())}
+	}}
+}
+
 func watchSummary(ws []kit.WatchCall) string {
 	s := ""
 	for _, w := range ws {
@@ -374,6 +460,9 @@ func init() {
 		}
 		for i := 0; i < tierPick(tier, 16, 600); i++ {
 			cases = append(cases, e5RelistRetryCase(seed, i))
+		}
+		for i := 0; i < tierPick(tier, 8, 200); i++ {
+			cases = append(cases, e5BacklogCase(seed, i))
 		}
 		for i := 0; i < tierPick(tier, 120, 2400); i++ {
 			cases = append(cases, eRelistAtExpiryCase("C04", "E5", seed, i))
